@@ -125,7 +125,10 @@ def judge_input_call(ctx, sess, rep, ev, d, present, w):
             ctx.violation('call present in the recording (via %s) was not answered with its recorded outcome' % (
                 'main alias' if pol[1][0] == main else 'fallback alias'), dict(ww, expected=repr(exp)[:200]))
     elif pol[0] == 'run_original':
-        if got.kind != 'ret' or not (isinstance(got.value, dict) and 'POISON' in got.value):
+        gv = got.value
+        if d['kind'] == 'property_inner_sub' and isinstance(gv, dict) and list(gv) == ['by_descriptor']:
+            gv = gv['by_descriptor']          # the user's own descriptor wraps whatever its getter (here: the original) returned
+        if got.kind != 'ret' or not (isinstance(gv, dict) and 'POISON' in gv):
             ctx.violation('run-original policy: the original was not run / its value not returned', ww)
     elif pol[0] == 'substitute':
         if sub[0] == 'lit':
@@ -418,7 +421,8 @@ def random_pair(ctx, case_seed):
             nb = len(rep.journal.bodies())
             if nb != allowed_bodies:
                 ctx.violation('wrapped bodies executed %d times during replay, policy allows %d' % (nb, allowed_bodies), w)
-            sig = [(e['decl'], repr(call_outcome(e))[:80]) for e in calls]
+            # per logical thread (worker threads of the replayed operation are scheduled by the OS: only the order within a thread is defined)
+            sig = sorted((th, [(e['decl'], repr(call_outcome(e))[:80]) for e in evs]) for th, evs in rep.journal.by_thread(calls).items())
             if first is None:
                 first = sig
             elif sig != first:
